@@ -402,10 +402,23 @@ def gen_translators():
             summary = gen_consts.generate(REPO, gen)
             # further translators: tools/gen.d/*.py, each exposing generate(repo, outdir) -> dict
             for f in sorted((VERIF / "tools" / "gen.d").glob("*.py")):
-                spec = importlib.util.spec_from_file_location("gen_" + f.stem, f)
-                mod = importlib.util.module_from_spec(spec)
-                spec.loader.exec_module(mod)
-                summary.update(mod.generate(REPO, gen) or {})
+                mod = None
+                try:
+                    spec = importlib.util.spec_from_file_location("gen_" + f.stem, f)
+                    mod = importlib.util.module_from_spec(spec)
+                    spec.loader.exec_module(mod)
+                    summary.update(mod.generate(REPO, gen) or {})
+                except gen_consts.TieError:
+                    raise
+                except Exception as e:
+                    # a translator that crashes must not take every property down with it: its outputs are
+                    # removed, so that exactly the cones that import them stop building (= a broken tie there)
+                    log("translator %s crashed: %r" % (f.name, e))
+                    for o in getattr(mod, "OUTPUTS", []) if mod else []:
+                        for suf in (".v", ".vo", ".vos", ".vok", ".glob"):
+                            q = (gen / o).with_suffix(suf)
+                            if q.exists():
+                                q.unlink()
         except gen_consts.TieError as e:
             raise TieError(str(e))
         after = {q.name: q.read_bytes() for q in gen.glob("*.v")}
